@@ -308,6 +308,47 @@ func readAll(fsys scalibrfs.FS, p string) string {
 		return "INCONSISTENT-close"
 	}
 	_ = f.Close() // a second Close must not panic
+	// two handles of ONE path open at the same time, reads interleaved: each Open has its own offset, and closing one leaves the other usable
+	if len(b) > 1 {
+		h1, e1 := fsys.Open(p)
+		if e1 != nil {
+			return "INCONSISTENT-open-again"
+		}
+		one := make([]byte, 1)
+		if n, _ := h1.Read(one); n != 1 || one[0] != b[0] {
+			h1.Close()
+			return "INCONSISTENT-two-handles-first"
+		}
+		h2, e2 := fsys.Open(p)
+		if e2 != nil {
+			h1.Close()
+			return "INCONSISTENT-open-again"
+		}
+		all2, e := io.ReadAll(h2)
+		if e != nil || !bytes.Equal(all2, b) {
+			h1.Close()
+			h2.Close()
+			// the second reader does not see the whole content: counted (reply field twoh), the content of the single reader is reported
+			twoHandles.Store(fsys, true)
+			return content(b)
+		}
+		rest1, e := io.ReadAll(h1)
+		if e != nil || !bytes.Equal(rest1, b[1:]) {
+			h1.Close()
+			h2.Close()
+			return "INCONSISTENT-two-handles-rest"
+		}
+		h2.Close()
+		if sk, ok := h1.(io.Seeker); ok {
+			if _, e := sk.Seek(0, io.SeekStart); e == nil {
+				if again, e := io.ReadAll(h1); e != nil || !bytes.Equal(again, b) {
+					h1.Close()
+					return "INCONSISTENT-two-handles-after-close" // closing the other handle broke this one
+				}
+			}
+		}
+		h1.Close()
+	}
 	// fresh handles whose FIRST operation is ReadAt / Seek (the file is opened lazily by whichever comes first)
 	if g, e := fsys.Open(p); e == nil {
 		if ra, ok := g.(io.ReaderAt); ok && len(b) > 0 {
@@ -385,6 +426,7 @@ func lookup(fsys scalibrfs.FS, p string) string {
 
 func run(c tcase) string {
 	return hx.Guard(func() string {
+		twoh := false
 		var adds []mutate.Addendum
 		li := 0
 		for i, h := range c.hist {
@@ -487,6 +529,9 @@ func run(c tcase) string {
 				ls = append(ls, lookup(fsys, p))
 			}
 			looks = append(looks, hx.Join(ls, ","))
+			if _, bad := twoHandles.LoadAndDelete(fsys); bad {
+				twoh = true
+			}
 		}
 		var maxdisk int64
 		_ = filepath.WalkDir(im.ExtractDir, func(p string, d fs.DirEntry, err error) error {
@@ -497,9 +542,13 @@ func run(c tcase) string {
 			}
 			return nil
 		})
-		return fmt.Sprintf("err=0 nv=%d walk=%s look=%s maxdisk=%d squash=%s acc=%d mt=%s", len(cls), strings.Join(walks, "|"), strings.Join(looks, "|"), maxdisk, squash(c, img), acc, strings.Join(mtimes, "|"))
+		return fmt.Sprintf("err=0 nv=%d walk=%s look=%s maxdisk=%d squash=%s acc=%d mt=%s twoh=%s", len(cls), strings.Join(walks, "|"), strings.Join(looks, "|"), maxdisk, squash(c, img), acc, strings.Join(mtimes, "|"),
+			hx.B(twoh))
 	})
 }
+
+// twoHandles: the file systems (one value per view of a case) in which some file's second concurrent handle did not read the whole content
+var twoHandles sync.Map
 
 // validHist: the history lists exactly the archives (no X entry): chain layers correspond to history entries
 func validHist(c tcase) bool { return !strings.Contains(c.hist, "X") }
